@@ -197,6 +197,12 @@ fn build_file(version: Version, rng: &mut Rng) -> Option<(Vec<u8>, Vec<String>, 
     let mut sess = Session::create(version, None).ok()?;
     let names = ["h", "d", "l", "b", "f", "j", "n", "a", "c"];
     let mut steps = vec![Step::Api(Op::CreateStorageAll("/st/in".into()))];
+    // nested non-ASCII names (lookups of such paths take the slow comparison path)
+    for (p, len) in [("/st/\u{3b1}lpha", 10usize), ("/st/in/\u{3b2}eta", 20), ("/st/in/\u{3b3}", 30), ("/st/\u{65e5}\u{672c}", 40)] {
+        steps.push(Step::HOpen { slot: 0, path: p.into(), how: OpenHow::Create });
+        steps.push(Step::HWriteAll { slot: 0, len });
+        steps.push(Step::HClose { slot: 0 });
+    }
     for (i, n) in names.iter().enumerate() {
         let p = if i % 3 == 2 { format!("/st/{n}") } else { format!("/{n}") };
         if i % 4 == 3 {
@@ -218,18 +224,98 @@ fn build_file(version: Version, rng: &mut Rng) -> Option<(Vec<u8>, Vec<String>, 
 }
 
 fn read_only_call(cf: &CompoundFile<MonFile>, k: u64, all: &[String]) -> (String, Option<u64>) {
+    let (n, v, _) = read_only_call_checked(cf, k, all, None);
+    (n, v)
+}
+
+/// Facts that no stream operation changes: which paths exist, their names and kinds.
+pub struct Facts {
+    streams: BTreeSet<String>,
+    n_all: u64,
+    n_root_children: u64,
+}
+
+impl Facts {
+    fn of(all: &[String], streams: &[String]) -> Facts {
+        Facts { streams: streams.iter().cloned().collect(), n_all: all.len() as u64, n_root_children: all.iter().filter(|p| p.as_str() != "/" && p.matches('/').count() == 1).count() as u64 }
+    }
+}
+
+/// Like `read_only_call`; with `facts` the result is also compared with what every state
+/// of the file says (third component = description of a result no state ever had).
+fn read_only_call_checked(cf: &CompoundFile<MonFile>, k: u64, all: &[String], facts: Option<&Facts>) -> (String, Option<u64>, Option<String>) {
     let p = &all[(k as usize / 9) % all.len()];
-    match k % 9 {
-        0 => ("entry".into(), cf.entry(p).ok().map(|e| e.len())),
-        1 => ("exists".into(), Some(cf.exists(p) as u64)),
-        2 => ("is_stream".into(), Some(cf.is_stream(p) as u64)),
-        3 => ("is_storage".into(), Some(cf.is_storage(p) as u64)),
+    let is_stream = facts.map(|f| f.streams.contains(p));
+    let last = p.rsplit('/').next().unwrap_or("");
+    let mut bad: Option<String> = None;
+    let mut expect = |what: &str, got: String, want: String| {
+        if got != want && bad.is_none() {
+            bad = Some(format!("{what}({p:?}) = {got}, every state of the file says {want}"));
+        }
+    };
+    let r = match k % 9 {
+        0 => {
+            let e = cf.entry(p);
+            if let (Some(st), Ok(e)) = (is_stream, &e) {
+                if p != "/" {
+                    expect("entry().name", format!("{:?}", e.name()), format!("{:?}", last));
+                }
+                expect("entry().is_stream", e.is_stream().to_string(), st.to_string());
+            } else if is_stream.is_some() {
+                expect("entry", "Err".into(), "Ok".into());
+            }
+            ("entry".into(), e.ok().map(|e| e.len()))
+        }
+        1 => {
+            let v = cf.exists(p);
+            if is_stream.is_some() {
+                expect("exists", v.to_string(), "true".into());
+            }
+            ("exists".into(), Some(v as u64))
+        }
+        2 => {
+            let v = cf.is_stream(p);
+            if let Some(st) = is_stream {
+                expect("is_stream", v.to_string(), st.to_string());
+            }
+            ("is_stream".into(), Some(v as u64))
+        }
+        3 => {
+            let v = cf.is_storage(p);
+            if let Some(st) = is_stream {
+                expect("is_storage", v.to_string(), (!st).to_string());
+            }
+            ("is_storage".into(), Some(v as u64))
+        }
         4 => ("root_entry".into(), Some(cf.root_entry().is_root() as u64)),
         5 => ("read_storage".into(), cf.read_storage(if cf.is_storage(p) { p.as_str() } else { "/" }).ok().map(|it| it.count() as u64)),
-        6 => ("walk".into(), Some(cf.walk().count() as u64)),
-        7 => ("read_root_storage".into(), Some(cf.read_root_storage().count() as u64)),
-        _ => ("walk_storage".into(), cf.walk_storage(p).ok().map(|it| it.count() as u64)),
-    }
+        6 => {
+            let n = cf.walk().count() as u64;
+            if let Some(f) = facts {
+                expect("walk().count", n.to_string(), f.n_all.to_string());
+            }
+            ("walk".into(), Some(n))
+        }
+        7 => {
+            let n = cf.read_root_storage().count() as u64;
+            if let Some(f) = facts {
+                expect("read_root_storage().count", n.to_string(), f.n_root_children.to_string());
+            }
+            ("read_root_storage".into(), Some(n))
+        }
+        _ => {
+            let w = cf.walk_storage(p).ok().map(|it| it.map(|e| e.path().to_string_lossy().into_owned()).collect::<Vec<_>>());
+            if let (Some(_), Some(list)) = (facts, &w) {
+                // pre-order walk of the subtree at p: first itself, then only paths below it
+                let base = if p == "/" { String::new() } else { p.clone() };
+                if list.first().map(|x| x != p).unwrap_or(true) || list.iter().skip(1).any(|x| !x.starts_with(&format!("{base}/"))) {
+                    expect("walk_storage", format!("{:?}", list.iter().take(4).collect::<Vec<_>>()), format!("{p:?} followed by paths below it"));
+                }
+            }
+            ("walk_storage".into(), w.map(|l| l.len() as u64))
+        }
+    };
+    (r.0, r.1, bad)
 }
 
 // ------------------------------------------------------------------ M1
@@ -441,6 +527,21 @@ fn run_threads(ctx: &Ctx, rep: &mut Report, forced: bool, round: u64) -> bool {
     let observations: Mutex<Vec<ReaderObs>> = Mutex::new(Vec::new());
     let deadlock: Mutex<Option<String>> = Mutex::new(None);
     let panicked = AtomicBool::new(false);
+    // handles on other streams, opened now (open_stream needs &mut) and written to and
+    // dropped by the writer while the readers run: Drop writes the buffer back
+    let mut spare: Vec<(String, u64, cfb::Stream<MonFile>)> = Vec::new();
+    if !forced {
+        for p in streams.iter().filter(|p| **p != target).take(4) {
+            if let Ok(h) = cf.open_stream(p) {
+                let l = h.len();
+                spare.push((p.clone(), l, h));
+            }
+        }
+    }
+    let mut dropped_dirty: Vec<(String, u64)> = Vec::new();
+    let facts = Facts::of(&all, &streams);
+    let facts_ref = &facts;
+    let static_violations: Mutex<Vec<String>> = Mutex::new(Vec::new());
     let cf_ref = &cf;
     let all_ref = &all;
     let target_ref = &target;
@@ -449,6 +550,7 @@ fn run_threads(ctx: &Ctx, rep: &mut Report, forced: bool, round: u64) -> bool {
     std::thread::scope(|scope| {
         for r in 0..n_readers {
             let observations = &observations;
+            let static_violations = &static_violations;
             let panicked = &panicked;
             let done_readers = &done_readers;
             let seed = rng.next_u64();
@@ -469,7 +571,10 @@ fn run_threads(ctx: &Ctx, rep: &mut Report, forced: bool, round: u64) -> bool {
                             let te = TS.fetch_add(1, Ordering::SeqCst);
                             local.push(ReaderObs { tb, te, len: l });
                         } else {
-                            let _ = read_only_call(cf_ref, k >> 8, all_ref);
+                            let (_, _, bad) = read_only_call_checked(cf_ref, k >> 8, all_ref, Some(facts_ref));
+                            if let Some(b) = bad {
+                                static_violations.lock().unwrap().push(b);
+                            }
                         }
                     }
                     observations.lock().unwrap().extend(local);
@@ -530,6 +635,16 @@ fn run_threads(ctx: &Ctx, rep: &mut Report, forced: bool, round: u64) -> bool {
                     std::thread::sleep(Duration::from_micros(100));
                 }
             }
+            if !forced && op % 9 == 5 {
+                // unflushed bytes in a handle that is dropped while readers hold the lock
+                if let Some((p, l, mut h)) = spare.pop() {
+                    let add = 100 + op % 50;
+                    if h.seek(SeekFrom::End(0)).is_ok() && h.write_all(&vec![5u8; add as usize]).is_ok() {
+                        drop(h);
+                        dropped_dirty.push((p, l + add));
+                    }
+                }
+            }
             let tb = TS.fetch_add(1, Ordering::SeqCst);
             let r: std::io::Result<()> = (|| {
                 match op % 5 {
@@ -569,6 +684,18 @@ fn run_threads(ctx: &Ctx, rep: &mut Report, forced: bool, round: u64) -> bool {
         global().finished.insert(0);
         writer_done.store(true, Ordering::SeqCst);
     });
+    for (p, want) in &dropped_dirty {
+        let got = cf.entry(p).map(|e| e.len()).unwrap_or(u64::MAX);
+        if got != *want {
+            rep.finding("result | bytes written through a handle that was then dropped are missing".to_string(), format!("{p}: the writer appended to the stream and dropped the handle while readers were running; entry().len() is {got}, expected {want}"), ctx.witness(round, vec![("monitor", J::s("M2 stress"))]));
+            break;
+        }
+        rep.count("m2.dirty_handle_drops_checked");
+    }
+    let sv = static_violations.into_inner().unwrap();
+    if let Some(b) = sv.first() {
+        rep.finding("result | a read-only call returned what no state of the file ever said".to_string(), format!("{b} ({} such results in this round)", sv.len()), ctx.witness(round, vec![("monitor", J::s(if forced { "M2 forced schedule" } else { "M2 stress" }))]));
+    }
     if panicked.load(Ordering::SeqCst) {
         rep.finding("panic | a reader thread panicked".to_string(), "a reader thread panicked during the stress run".into(), ctx.witness(round, vec![]));
     }
